@@ -289,7 +289,7 @@ TEXT = {
                 "on the established store except for GetCommitMessage faults (fault_established_code); crash_chain_partial covers every "
                 "stopping point. fault_F13_witness / fault_F50_witness / fault_F51_witness prove the three defects in the model of the "
                 "code; the real code is run with the same faults on real repositories and must agree with the model.",
-        "note": TB + "F13, F50, F51 are open. The theorems are bounded to the listed starting stores (all k); the universally quantified statements "
+        "note": TB + "F13, F50, F51, F67 (faults on tolerated reads are swallowed: success is reported) are open. The theorems are bounded to the listed starting stores (all k); the universally quantified statements "
                 "are kept as fault_statement / crash_statement. crash_verdict is checked on the implementation only.",
         "technique": "Lean 4 kernel evaluation over all fault points + fault-injecting differential testing",
     },
